@@ -86,7 +86,28 @@ def sender_prog(rng, ids):
     return ops
 
 
-DIRECTED = [
+# (signalling mechanism, InternalThreadEntry style): socket pair / wait-condition; default loop / event-driven
+MODES = [("s", "d"), ("w", "d"), ("s", "e")]
+
+
+def lifecycle_orders():
+    """'queue before start', 'allocate the sockets before start', 'start', 'send after start', 'shutdown' in every order
+    that keeps start before shutdown (the Messages queued before the socket pair exists are signalled by nobody but
+    StartInternalThread's initial signal)"""
+    import itertools
+    out = []
+    for perm in itertools.permutations(["si:8", "gs", "st", "si:16"]):
+        out.append((1, ";".join("0:" + o for o in perm) + ";0:sd1"))
+    for perm in itertools.permutations(["si:8", "si:16", "gs"]):
+        out.append((1, ";".join("0:" + o for o in perm) + ";0:st;0:sd1"))
+    out.append((1, "0:si:8;0:gs;0:st;0:sd0;0:jn"))
+    out.append((1, "0:si:8;0:st;0:sd1;0:si:16;0:gs;0:st;0:sd1"))          # the same after a restart
+    out.append((1, "0:si:10;0:gs;0:st;0:rn;0:sd1"))                        # the queued Message is answered
+    out.append((2, "0:gs;1:si:8;0:st;1:si:16;0:sd1"))
+    return out
+
+
+DIRECTED = lifecycle_orders() + [
     # (threads, body)  -- each is run in both modes with several seeds and (partly) exhaustively
     (1, "0:st;0:si:8;0:sd1"),                                         # one Message, shutdown, join
     (1, "0:si:8;0:si:16;0:st;0:sd1"),                                 # queued before start (signal dropped in socket mode)
@@ -157,8 +178,8 @@ class CHECK(vlib.Check):
         self._impl = impl
         return impl, model
 
-    def explore(self, mode, n, body, bound, max_runs):
-        line = "m=%s,n=%d,seed=-,sch=|%s\n" % (mode, n, body)
+    def explore(self, mk, n, body, bound, max_runs):
+        line = "m=%s,k=%s,n=%d,seed=-,sch=|%s\n" % (mk[0], mk[1], n, body)
         env = dict(os.environ); env.update(vlib.SAN_ENV)
         p = subprocess.run([self._impl, "--explore", str(bound), str(max_runs)], input=line, stdout=subprocess.PIPE,
                            stderr=subprocess.PIPE, text=True, env=env, timeout=1800)
@@ -173,13 +194,14 @@ class CHECK(vlib.Check):
             style = rng.choice(["tidy", "tidy", "tidy", "restart", "wild"])
             progs = [owner_prog(rng, ids, style)] + [sender_prog(rng, ids) for _ in range(nsend)]
             seed = "-" if i % 10 == 0 else str(rng.randint(1, 10 ** 9))
-            out.append((style, "m=%s,n=%d,seed=%s,sch=|%s" % (rng.choice("sw"), 1 + nsend, seed, interleave(rng, progs))))
+            mk = rng.choice(MODES)
+            out.append((style, "m=%s,k=%s,n=%d,seed=%s,sch=|%s" % (mk[0], mk[1], 1 + nsend, seed, interleave(rng, progs))))
         reps = 6 if tier == "quick" else 40
         for (n, body) in DIRECTED:
-            for mode in "sw":
-                out.append(("directed", "m=%s,n=%d,seed=-,sch=|%s" % (mode, n, body)))
+            for mk in MODES:
+                out.append(("directed", "m=%s,k=%s,n=%d,seed=-,sch=|%s" % (mk[0], mk[1], n, body)))
                 for _ in range(reps):
-                    out.append(("directed", "m=%s,n=%d,seed=%d,sch=|%s" % (mode, n, rng.randint(1, 10 ** 9), body)))
+                    out.append(("directed", "m=%s,k=%s,n=%d,seed=%d,sch=|%s" % (mk[0], mk[1], n, rng.randint(1, 10 ** 9), body)))
         # exhaustive schedules up to a preemption bound (support for the tie, not the theorem)
         if getattr(self, "_impl", None):
             if tier == "quick":
@@ -189,8 +211,8 @@ class CHECK(vlib.Check):
             if not getattr(self, "_explored", None) or self._explored[0] != tier:
                 cache = []
                 for (n, body, bound, cap) in todo:
-                    for mode in "sw":
-                        cache += self.explore(mode, n, body, bound, cap)
+                    for mk in MODES:
+                        cache += self.explore(mk, n, body, bound, cap)
                 self._explored = (tier, cache)
             if not getattr(self, "_explore_emitted", False):
                 out += [("exhaustive", l) for l in self._explored[1]]
@@ -210,7 +232,7 @@ class CHECK(vlib.Check):
             d["stream:" + s] = d.get("stream:" + s, 0) + 1
             head, body = c.split("|", 1)
             for h in head.split(","):
-                if h.startswith("m=") or h.startswith("n="):
+                if h.startswith("m=") or h.startswith("n=") or h.startswith("k="):
                     d[h] = d.get(h, 0) + 1
                 if h.startswith("seed="):
                     k = "policy:" + ("nonpreemptive" if h == "seed=-" else "random")
